@@ -34,8 +34,26 @@ func (si SuInt64) Compare(other Value) int {
 	if i2, ok := SuIntToInt(other); ok {
 		return cmp.Compare(si.int64, int64(i2))
 	}
-	dn, _ := si.ToDnum()
-	return dnum.Compare(dn, other.(SuDnum).Dnum)
+	return cmpIntDnum(si.int64, other.(SuDnum).Dnum)
+}
+
+// cmpIntDnum compares an integer with a decimal exactly.
+// dnum.FromInt rounds integers of more than 16 digits, but it is monotonic,
+// so only when it gives dn do we need the exact integer value of dn.
+func cmpIntDnum(i int64, dn dnum.Dnum) int {
+	c := dnum.Compare(dnum.FromInt(i), dn)
+	if c != 0 || dn.Exp() <= 16 {
+		return c
+	}
+	n := dn.Coef() // 16 digits
+	for e := dn.Exp(); e > 16; e-- {
+		n *= 10 // at most 19 digits
+	}
+	u := uint64(i)
+	if i < 0 {
+		u = -u
+	}
+	return dn.Sign() * cmp.Compare(u, n)
 }
 
 func (si SuInt64) Equal(other any) bool {
